@@ -131,7 +131,8 @@ class SimMachine(object):
 
     def _init_memory(self):
         for (x, y), c in self.chips.items():
-            c.vcpu_base = SYSRAM_BASE + 0x4000
+            # (the per-core blocks do not sit at the same address on every chip)
+            c.vcpu_base = SYSRAM_BASE + 0x4000 + 0x900 * ((x * 7 + y * 3) % 5)
             c.sdram_sys = SDRAM_BASE + 0x7000000
             c.rtr_copy = SDRAM_BASE + 0x7100000
             c.alloc_tag = SDRAM_BASE + 0x7200000
